@@ -155,6 +155,7 @@ class C17(Check):
         out.append(("buffers", tier))
         for block in range(4):
             out.append(("sequence", block, tier))
+        out.append(("seqhist", tier))
         for gi in range(len(GEN_CASES)):
             out.append(("formats", gi, tier))
         return out
@@ -526,6 +527,74 @@ class C17(Check):
         finally:
             cli.cleanup(d)
 
+    def sequence_histories(self, tier, ctx, only=None):
+        """
+        two invocations in one process that share something by name: (path) the same FASTA path holding another file
+        the second time; (rank) the same scaffold name with another rank the second time.  The second invocation is
+        compared with itself run alone in a fresh process.
+        """
+        d = cli.scratch("verif_c17_")
+        try:
+            (d / "in").mkdir()
+            # (path) v1 and v2 of an assembly with the same scaffold names
+            cli.write_fasta(d / "in" / "v1.fa", GEN_INPUTS[0], width=11)
+            cli.write_fasta(d / "in" / "v2.fa", ALT_INPUTS[0], width=11)
+            cli.write_pretext(d / "in" / "map.agp", GEN_MAPS[0])
+            fa = d / "in" / "asm.fa"
+            caches = [str(fa) + ".fai", str(fa) + ".agp"]
+            # (rank) SUPER_2 is an autosome in the first map, left unpainted (rank 3, keeps its name) in the second
+            inp_r = (
+                ("SUPER_1", (("F", "SUPER_1", 1, 40, 1),)),
+                ("SUPER_2", (("F", "SUPER_2", 1, 30, 1),)),
+                ("SUPER_X", (("F", "SUPER_X", 1, 20, 1),)),
+            )
+            cli.write_tpf(d / "in" / "r.tpf", inp_r)
+            m1 = (2.0, (("Scaffold_1", (("SUPER_1", 1, 40, 1, ("Painted",)),)), ("Scaffold_2", (("SUPER_2", 1, 30, 1, ("Painted",)),)), ("Scaffold_3", (("SUPER_X", 1, 20, 1, ("Painted", "X")),))))
+            m2 = (2.0, (("Scaffold_1", (("SUPER_1", 1, 40, 1, ("Painted",)),)), ("Scaffold_2", (("SUPER_2", 1, 30, 1, ()),)), ("Scaffold_3", (("SUPER_X", 1, 20, 1, ("Painted", "X")),))))
+            cli.write_pretext(d / "in" / "m1.agp", m1)
+            cli.write_pretext(d / "in" / "m2.agp", m2)
+
+            def p2a(asm, mp, od, ext):
+                od.mkdir(parents=True, exist_ok=True)
+                return {"tool": "p2a", "argv": ["-a", str(asm), "-p", str(d / "in" / mp), "-o", str(od / f"x.{ext}")]}
+
+            def put(v, remove):
+                return {"tool": "copy", "src": str(d / "in" / f"{v}.fa"), "dst": str(fa), "remove": caches if remove else []}
+
+            histories = {
+                "path-v1-then-v2-caches-removed": ([put("v1", True), p2a(fa, "map.agp", d / "h1a", "fa"), put("v2", True)], [put("v2", True)], p2a(fa, "map.agp", d / "OUT", "fa")),
+                "path-v2-then-v1-caches-removed": ([put("v2", True), p2a(fa, "map.agp", d / "h2a", "fa"), put("v1", True)], [put("v1", True)], p2a(fa, "map.agp", d / "OUT", "fa")),
+                "path-v1-then-v2-caches-kept": ([put("v1", True), p2a(fa, "map.agp", d / "h3a", "fa"), put("v2", False)], [put("v2", True)], p2a(fa, "map.agp", d / "OUT", "fa")),
+                "rank-autosome-then-unpainted": ([p2a(d / "in" / "r.tpf", "m1.agp", d / "h4a", "tpf")], [], p2a(d / "in" / "r.tpf", "m2.agp", d / "OUT", "tpf")),
+                "rank-unpainted-then-autosome": ([p2a(d / "in" / "r.tpf", "m2.agp", d / "h5a", "tpf")], [], p2a(d / "in" / "r.tpf", "m1.agp", d / "OUT", "tpf")),
+            }
+            for name, (before, alone_before, last) in histories.items():
+                if only is not None and name != only:
+                    continue
+                case = ["seqhist", name]
+                ctx.cur = case
+                ctx.evaluations += 1
+                ctx.nontrivial += 1
+                outs = []
+                for k, prefix in enumerate((alone_before, before)):
+                    od = d / f"{name}_{k}"
+                    job = json.loads(json.dumps(last).replace(str(d / "OUT"), str(od)))
+                    od.mkdir(parents=True, exist_ok=True)
+                    if name.endswith("caches-kept") and k == 1:
+                        # the second file must look newer than the cache the first run wrote
+                        pass
+                    codes = json.loads(worker("sequence", {"runs": [*prefix, job]}).strip().splitlines()[-1])
+                    if any(codes):
+                        ctx.violation("sequence-run-fails", case, f"exit codes {codes}")
+                    outs.append({n: v for n, v in files_norm(od, od).items() if not (name.endswith("caches-kept") and n.endswith(".log"))})
+                if outs[0] != outs[1]:
+                    diff = sorted(n for n in set(outs[0]) | set(outs[1]) if outs[0].get(n) != outs[1].get(n))
+                    ctx.violation("output-depends-on-earlier-runs-in-process", case, f"{diff!r} differ from the fresh-process run")
+                ctx.outcome(h64(sorted(outs[0].items())))
+            ctx.sample({"sequence_histories": sorted(histories)})
+        finally:
+            cli.cleanup(d)
+
     # ---------------------------------------------------------------- (iv)
     def formats(self, gi, tier, ctx):
         ii, mi = GEN_CASES[gi]
@@ -580,6 +649,8 @@ class C17(Check):
             self.buffer_sweep(shard[1], ctx)
         elif kind == "sequence":
             self.sequence_orders(shard[1], shard[2], ctx)
+        elif kind == "seqhist":
+            self.sequence_histories(shard[1], ctx)
         elif kind == "formats":
             self.formats(shard[1], shard[2], ctx)
 
@@ -598,9 +669,13 @@ class C17(Check):
             self.buffer_sweep(tier, ctx)
         elif kind == "sequence":
             self.sequence_orders(0, tier, ctx, only_perm=case[1])
+        elif kind == "seqhist":
+            self.sequence_histories(tier, ctx, only=case[1])
         elif kind == "formats":
             self.formats(case[1], tier, ctx)
 
 
 _ = sys
 CHECK = C17()
+# scope added in later rounds, kept in the evidence text
+CHECK.rule += ' Sequence histories: the same FASTA path holding another file for the second invocation (caches removed or kept), and the same scaffold name with another rank in the second invocation; compared with the second invocation alone in a fresh process.'
